@@ -756,6 +756,8 @@ def judge_semantics(J, text, toks):
 
 
 def judge_query(J, query, text, toks):
+    if query == "rules":
+        return judge_rules(J, text, toks)
     if query == "semantics":
         return judge_semantics(J, text, toks)
     if query == "accepted":
@@ -839,6 +841,7 @@ def judge_all(F, tier, jobs=None, query="exhaustive"):
     flavours = {"text": ("general", "literal"), "root": ("rooted",), "partition": ("general", "rooted", "literal"),
                 "depth": ("general", "pairs", "nested"), "exhaustive": ("general", "pairs", "nested"),
                 "semantics": ("general", "rooted", "literal", "pairs", "nested"),
+                "rules": ("general", "rooted", "pairs", "nested"),
                 "accepted": ("general", "rooted", "literal", "pairs", "nested")}.get(query, ("general",))
     builders = [b for fl in flavours for b in catalogue(tier, fl)]
     for build in builders:
@@ -977,6 +980,7 @@ def report(F, R, rule, tier):
 
 
 QUERY_TEXT = {
+    "rules": ("is %s by the rule checker", "rule::check"),
     "semantics": ("compiles to the %s", "encode::compile"),
     "partition": ("partitions into %s", "token::Tokenized::partition"),
     "depth": ("reports the depth variance %s", "token::Token::variance"),
@@ -1022,3 +1026,154 @@ def report_query(F, R, rule, tier, query, floor_total=5000, floor_decided=200):
     R.note("%s catalogue (%s tier): %d expressions, %s%s" % (query, tier, len(res), counts, " (from the cache of this tree state)" if cached else ""))
     R.floor(rule, "catalogue expressions judged", len(res), floor_total)
     R.floor(rule, "expressions with a non-trivial verdict whose language was decided", counts.get("sound", 0) + counts.get("unsound", 0), floor_decided)
+
+
+# ---------------------------------------------------------------------------------------------------
+# C06: the rule checker's verdict against the documented rules, computed independently by expansion
+
+
+def _leaf_class(tok):
+    t = strip(tok)
+    topo = strip(t.fields["topology"])
+    if topo.variant != "Leaf":
+        return None
+    inner = strip(topo.fields["0"])
+    if inner.variant == "Separator":
+        return "S"
+    if inner.variant == "Wildcard":
+        k = strip(inner.fields["0"])
+        if k.variant == "Tree":
+            return "R" if strip(k.fields["has_root"]) is True else "T"
+        if k.variant == "ZeroOrMore":
+            return "Z"
+        return "o"
+    return "o"
+
+
+def _branch(tok):
+    t = strip(tok)
+    topo = strip(t.fields["topology"])
+    if topo.variant != "Branch":
+        return None
+    inner = strip(topo.fields["0"])
+    b = strip(inner.fields["0"])
+    if inner.variant == "Concatenation":
+        return ("cat", list(strip(b.fields["0"]).items))
+    if inner.variant == "Alternation":
+        return ("alt", list(strip(b.fields["0"]).items))
+    lo, hi = strip(b.fields["lower"]), strip(b.fields["upper"])
+    hi = strip(hi.fields["0"]) if isinstance(hi, Adt) and hi.variant == "Some" else None
+    return ("rep", b.fields["token"], lo, hi)
+
+
+def expansions(tok, repeats):
+    """All sequences of leaf classes the token can stand for: every choice of alternation branches, every repetition
+    body repeated each count in `repeats` that its bounds allow (at least once).  -> set of strings over S T R Z o"""
+    c = _leaf_class(tok)
+    if c is not None:
+        return {c}
+    b = _branch(tok)
+    if b[0] == "cat":
+        out = {""}
+        for t in b[1]:
+            ex = expansions(t, repeats)
+            out = {a + x for a in out for x in ex}
+            if len(out) > 4000:
+                raise OverflowError
+        return out
+    if b[0] == "alt":
+        out = set()
+        for t in b[1]:
+            out |= expansions(t, repeats)
+        return out
+    _k, body, lo, hi = b
+    ex = expansions(body, repeats)
+    out = set()
+    for n in repeats:
+        # the counts are about which tokens can meet, not about matching: one pass shows the body's own neighbours,
+        # two passes show what meets across iterations (when the upper bound allows a second pass)
+        n = max(n, 1)
+        if hi is not None and n > hi and n > 1:
+            continue
+        cur = {""}
+        for _ in range(n):
+            cur = {a + x for a in cur for x in ex}
+            if len(cur) > 4000:
+                raise OverflowError
+        out |= cur
+    return out
+
+
+def _sole_leaf(tok):
+    """The class of the leaf the token consists solely of (looking through concatenations of one token) | None"""
+    while True:
+        c = _leaf_class(tok)
+        if c is not None:
+            return c
+        b = _branch(tok)
+        if b[0] == "cat" and len(b[1]) == 1:
+            tok = b[1][0]
+            continue
+        return None
+
+
+def documented_verdict(tree):
+    """None if the expression respects the documented rules (C06), else the first rule it violates."""
+    def walk(tok, first):
+        """first: nothing can precede this token in the whole expression.  -> violation | None"""
+        b = _branch(tok)
+        if b is None:
+            return None
+        if b[0] == "cat":
+            for i, t in enumerate(b[1]):
+                v = walk(t, first and i == 0)
+                if v:
+                    return v
+            return None
+        if b[0] == "alt":
+            for br in b[1]:
+                ex = expansions(br, (1,))
+                if _sole_leaf(br) in ("T", "R"):
+                    return "an alternation branch consists solely of a tree wildcard"
+                if first and any(x[:1] in ("S", "R") for x in ex):
+                    return "an alternation branch can root the expression"
+                v = walk(br, first)
+                if v:
+                    return v
+            return None
+        _k, body, lo, hi = b
+        ex = expansions(body, (1,))
+        if _sole_leaf(body) in ("T", "R"):
+            return "a repetition body consists solely of a tree wildcard"
+        if _sole_leaf(body) in ("S", "Z"):
+            return "a repetition body is solely a separator or a zero-or-more wildcard"
+        if first and lo == 0 and any(x[:1] in ("S", "R") for x in ex):
+            return "an optional repetition can root the expression"
+        return walk(body, first)
+    v = walk(tree, True)
+    if v:
+        return v
+    for seq in expansions(tree, (1, 2)):
+        for a, b_ in zip(seq, seq[1:]):
+            if a in "STR" and b_ in "STR":
+                return "two component boundaries become adjacent"
+    for seq in expansions(tree, (1,)):
+        if "ZZ" in seq:
+            return "two zero-or-more wildcards become adjacent"
+    return None
+
+
+def judge_rules(J, text, toks):
+    tree = J.tree(toks)
+    acc = _accepted(J, text, tree)
+    if acc is None:
+        return {"text": text, "status": "unanalysable", "what": "the rule checker's verdict"}
+    try:
+        why = documented_verdict(tree)
+    except OverflowError:
+        return {"text": text, "status": "other", "verdict": "too many expansions"}
+    want = why is None
+    if acc == want:
+        return {"text": text, "status": "sound", "verdict": "accepted" if acc else "rejected", "pattern": why or "well-formed"}
+    return {"text": text, "status": "unsound", "verdict": "accepted" if acc else "rejected",
+            "why": ("the documented rules reject it: %s" % why) if acc else "it violates none of the documented rules", "pattern": "-"}
